@@ -5,7 +5,7 @@ Transcribed from `core/{flow,isolation,hotspot,circuitbreaker,system,outlier}/ru
 repaired tree (nil rules skipped in `LoadRules`; circuit breaker per-resource path builds from the valid rules).
 
 * A *rule* is the record of the fields that `IsValidRule`, the module's equality and `reflect.DeepEqual`
-  look at (the optional `ID` is left out: nothing reads it).  `float64` fields travel as **halves**
+  and the getters look at — all of them, the optional `ID` included.  `float64` fields travel as **halves**
   (`th2 = 3` is `1.5`): every comparison the code does on them is then exact integer arithmetic.
 * Go maps `map[string][]…` are total functions `String → List …` with `[]` for "absent" (the managers never
   store an empty list in `currentRules`, and an empty controller list is indistinguishable from an absent
@@ -13,9 +13,11 @@ repaired tree (nil rules skipped in `LoadRules`; circuit breaker per-resource pa
 * A rule object is shared by `currentRules` (the raw cache the `DeepEqual` short-circuit compares against),
   by the controller and by the caller.  Constructors that write defaults back into the object
   (`WarmUpColdFactor ≤ 1 → 3`, `SpecificItems nil → {}`) therefore change the *cache*: `normIn`.
-* Controller reuse (`calculateReuseIndexFor`) is C14's subject.  It is invisible here: a reused controller
-  is bound to an old rule that is field-wise equal to the new one on the recorded fields (`flowIsEqualsTo_iff`, `hotEquals_canon`
-  in `Lemmas/Rules.lean`, for the two modules where the getter reads the controller's rule).
+* Controller reuse (`calculateReuseIndexFor`, flow and hotspot): a controller whose old rule is equal to the new one
+  for the module's own equality (`flowIsEqualsTo`, `hotEquals`, transcribed field by field) is kept **with the old rule
+  object**; `bound` holds those objects (what the getters return), `enf` the rules the controllers were asked to be
+  built from.  The two agree up to `canon` (the ID; hotspot: the behaviour-irrelevant field) — `Inv.bound`.  A record
+  carries EVERY field of the Go struct (incl. `ID`), so a field dropped from an equality shows up as a stale getter.
 -/
 namespace Sentinel.Rules
 
@@ -34,6 +36,7 @@ def firstTrue (i : Nat) : List Bool → Nat
   | b :: bs => if b then i else firstTrue (i + 1) bs
 
 structure FlowRule where
+  id : String      -- ID (optional, read by nothing but the getters and DeepEqual)
   res : String
   tcs : Int        -- TokenCalculateStrategy (int32): 0 Direct, 1 WarmUp, 2 MemoryAdaptive
   cb : Int         -- ControlBehavior (int32): 0 Reject, 1 Throttling
@@ -81,7 +84,16 @@ def flowIsEqualsTo (a b : FlowRule) : Bool :=
   a.th2 == b.th2 && a.maxQ == b.maxQ && a.wuPeriod == b.wuPeriod && a.wuCf == b.wuCf &&
   a.lowMem == b.lowMem && a.highMem == b.highMem && a.memLow == b.memLow && a.memHigh == b.memHigh
 
+/-- `(*Rule).isStatReusable` of flow -/
+def flowStatReusable (a b : FlowRule) : Bool :=
+  a.res == b.res && a.rel == b.rel && a.ref == b.ref && a.statMs == b.statMs &&
+  (a.tcs == 1 || a.cb == 0) && (b.tcs == 1 || b.cb == 0)
+
+/-- the part of a flow rule that `isEqualsTo` looks at: everything but the ID -/
+def flowCanon (r : FlowRule) : FlowRule := { r with id := "" }
+
 structure IsoRule where
+  id : String
   res : String
   metric : Int     -- MetricType (int32): 0 Concurrency
   th : Nat         -- Threshold (uint32)
@@ -94,6 +106,7 @@ def isoClause (r : IsoRule) : Nat :=
       decide (r.th = 0) ]
 
 structure HotRule where
+  id : String
   res : String
   metric : Int     -- MetricType (int32): 0 Concurrency, 1 QPS
   cb : Int         -- ControlBehavior (int32): 0 Reject, 1 Throttling
@@ -130,12 +143,17 @@ def hotEquals (a b : HotRule) : Bool :=
   a.th == b.th && a.dur == b.dur && a.items == b.items &&
   (if a.cb = 0 then a.burst == b.burst else if a.cb = 1 then a.maxQ == b.maxQ else false)
 
-/-- what the getters' canonical printing shows of a hotspot rule: `BurstCount` only under Reject,
+/-- the part of a hotspot rule that `Rule.Equals` looks at: no ID, `BurstCount` only under Reject,
     `MaxQueueingTimeMs` only under Throttling -/
 def hotCanon (r : HotRule) : HotRule :=
-  { r with maxQ := if r.cb = 1 then r.maxQ else 0, burst := if r.cb = 0 then r.burst else 0 }
+  { r with id := "", maxQ := if r.cb = 1 then r.maxQ else 0, burst := if r.cb = 0 then r.burst else 0 }
+
+/-- `(*Rule).IsStatReusable` of hotspot -/
+def hotStatReusable (a b : HotRule) : Bool :=
+  a.res == b.res && a.cb == b.cb && a.cap == b.cap && a.dur == b.dur && a.metric == b.metric
 
 structure CbRule where
+  id : String
   res : String
   strategy : Nat   -- 0 SlowRequestRatio, 1 ErrorRatio, 2 ErrorCount
   retryMs : Nat
@@ -159,6 +177,7 @@ def cbClause (r : CbRule) : Nat :=
 def cbBuildable (r : CbRule) : Bool := r.strategy ≤ 2
 
 structure SysRule where
+  id : String
   metric : Nat     -- MetricType (uint32): 0 Load, 1 AvgRT, 2 Concurrency, 3 InboundQPS, 4 CpuUsage
   th2 : Int        -- TriggerCount, in halves
   strategy : Int   -- AdaptiveStrategy: -1 none, 1 BBR
@@ -172,7 +191,10 @@ def sysClause (r : SysRule) : Nat :=
 
 structure OutRule where
   pct2 : Int                 -- MaxEjectionPercent, in halves
-  recMs : Nat                -- RecoveryIntervalMs (only looked at by DeepEqual)
+  recMs : Nat                -- RecoveryIntervalMs (this and the next three: only looked at by DeepEqual and the getter)
+  active : Bool := false     -- EnableActiveRecovery
+  recycleS : Nat := 0        -- RecycleIntervalS
+  maxAtt : Nat := 0          -- MaxRecoveryAttempts
   inner : Option CbRule      -- the embedded *circuitbreaker.Rule (may be nil)
 deriving DecidableEq, Repr, Inhabited
 
@@ -202,27 +224,41 @@ structure RuleMod (R : Type) where
   scopedRes : Bool
   /-- the getters read a separate map holding the *valid* rules (circuit breaker's `breakerRules`) -/
   pubValid : Bool
+  /-- `old.isEqualsTo(new)`: the old controller (bound to the *old* rule object) is kept -/
+  equals : R → R → Bool
+  /-- `old.isStatReusable(new)`: the old controller's statistic is handed to the new controller -/
+  statReusable : R → R → Bool
+  /-- the rule with everything `equals` ignores blanked out -/
+  canon : R → R
 
 def flowMod (tm : Int) : RuleMod FlowRule :=
-  { res := (·.res), valid := fun r => flowClause tm r = 0, buildable := flowBuildable, norm := flowNorm, scopedRes := true, pubValid := false }
+  { res := (·.res), valid := fun r => flowClause tm r = 0, buildable := flowBuildable, norm := flowNorm, scopedRes := true, pubValid := false,
+    equals := flowIsEqualsTo, statReusable := flowStatReusable, canon := flowCanon }
 def isoMod : RuleMod IsoRule :=
-  { res := (·.res), valid := fun r => isoClause r = 0, buildable := fun _ => true, norm := id, scopedRes := false, pubValid := false }
+  { res := (·.res), valid := fun r => isoClause r = 0, buildable := fun _ => true, norm := id, scopedRes := false, pubValid := false,
+    equals := fun _ _ => false, statReusable := fun _ _ => false, canon := id }   -- `ruleMap` holds the rules themselves: nothing is reused
 def hotMod : RuleMod HotRule :=
-  { res := (·.res), valid := fun r => hotClause r = 0, buildable := hotBuildable, norm := hotNorm, scopedRes := true, pubValid := false }
+  { res := (·.res), valid := fun r => hotClause r = 0, buildable := hotBuildable, norm := hotNorm, scopedRes := true, pubValid := false,
+    equals := hotEquals, statReusable := hotStatReusable, canon := hotCanon }
 def cbMod : RuleMod CbRule :=
-  { res := (·.res), valid := fun r => cbClause r = 0, buildable := cbBuildable, norm := id, scopedRes := true, pubValid := true }
+  { res := (·.res), valid := fun r => cbClause r = 0, buildable := cbBuildable, norm := id, scopedRes := true, pubValid := true,
+    equals := fun _ _ => false, statReusable := fun _ _ => false, canon := id }   -- the getters read `breakerRules`, never a breaker's rule (breaker identity is C14's)
 
 structure MState (R : Type) where
   /-- every key that may be present in `currentRules` -/
   keys : List String
   /-- `currentRules` (the raw lists last stored, as the shared objects read *now*) -/
   cache : String → List (Option R)
-  /-- the rules bound to the controllers in force (`tcMap` / `ruleMap` / `breakers`) -/
+  /-- the rules the controllers in force were asked to be built from (`tcMap` / `ruleMap` / `breakers`),
+      i.e. the controllers' rules up to what the module's equality ignores -/
   enf : String → List R
+  /-- the rule *objects* bound to the controllers in force: a controller kept by `calculateReuseIndexFor`
+      stays bound to the old object (old `ID`, old values of the fields `equals` ignores) -/
+  bound : String → List R
   /-- what `GetRules…` reads -/
   pub : String → List R
 
-def MState.init {R : Type} : MState R := { keys := [], cache := fun _ => [], enf := fun _ => [], pub := fun _ => [] }
+def MState.init {R : Type} : MState R := { keys := [], cache := fun _ => [], enf := fun _ => [], bound := fun _ => [], pub := fun _ => [] }
 
 def upd {α : Type} (f : String → α) (k : String) (v : α) : String → α := fun x => if x = k then v else f x
 
@@ -240,6 +276,25 @@ def buildList (k : String) (l : List (Option R)) : List R := ((l.filterMap id).f
 
 def validList (l : List (Option R)) : List R := (l.filterMap id).filter M.valid
 
+/-- `calculateReuseIndexFor`, equal case: the first old rule equal to `r`, and the old list without it -/
+def findEq (r : R) : List R → Option (R × List R)
+  | [] => none
+  | o :: os => if M.equals o r then some (o, os) else (findEq r os).map fun x => (x.1, o :: x.2)
+
+/-- `calculateReuseIndexFor`, no equal rule: the old list without the first stat-reusable rule (if any) -/
+def dropStat (r : R) : List R → List R
+  | [] => []
+  | o :: os => if M.statReusable o r then os else o :: dropStat r os
+
+/-- `build…Controller(res, validRules, oldControllers)`: the rule objects of the resulting controllers -/
+def buildReuse (k : String) : List R → List R → List R
+  | [], _ => []
+  | r :: rs, old =>
+    if M.scopedRes && M.res r != k then buildReuse k rs old
+    else match findEq M r old with
+      | some (o, rest) => o :: buildReuse k rs rest
+      | none => if M.buildable r then M.norm r :: buildReuse k rs (dropStat M r old) else buildReuse k rs old
+
 /-- the grouping loop of `LoadRules`: non-nil rules of resource `k`, in order -/
 def proj (k : String) (rules : List (Option R)) : List (Option R) :=
   rules.filter fun o => match o with | some r => M.res r == k | none => false
@@ -253,20 +308,24 @@ def loadAll (s : MState R) (rules : List (Option R)) : MState R × Outcome :=
     ({ keys := gkeys,
        cache := fun k => (proj M k rules).map (normIn M k),
        enf := fun k => buildList M k (proj M k rules),
-       pub := fun k => if M.pubValid then validList M (proj M k rules) else buildList M k (proj M k rules) },
+       bound := fun k => buildReuse M k (validList M (proj M k rules)) (s.bound k),
+       pub := fun k => if M.pubValid then validList M (proj M k rules)
+                       else buildReuse M k (validList M (proj M k rules)) (s.bound k) },
      .changed)
 
 def loadRes (s : MState R) (res : String) (rules : List (Option R)) : MState R × Outcome :=
   if res = "" then (s, .err)
   else if rules = [] then
-    ({ s with cache := upd s.cache res [], enf := upd s.enf res [], pub := upd s.pub res [] }, .changed)
+    ({ s with cache := upd s.cache res [], enf := upd s.enf res [], bound := upd s.bound res [], pub := upd s.pub res [] }, .changed)
   else if s.cache res == rules then (s, .unchanged)
   else
     let b := buildList M res rules
+    let o := buildReuse M res (validList M rules) (s.bound res)
     ({ keys := res :: s.keys,
        cache := upd s.cache res (rules.map (normIn M res)),
        enf := upd s.enf res b,
-       pub := upd s.pub res (if M.pubValid then (if b = [] then [] else validList M rules) else b) },
+       bound := upd s.bound res o,
+       pub := upd s.pub res (if M.pubValid then (if b = [] then [] else validList M rules) else o) },
      .changed)
 
 inductive Op (R : Type)
